@@ -104,19 +104,21 @@ structure Interp where
   tuple : List Val → M
   matchSel : Val → List (Nat × M) → M
   lam : Nat → M → M
+  /-- binding the value of a `let` statement `k` (may emit events or trap on a failed pattern). -/
+  letBind : Nat → Val → M
 
 mutual
 def eval (I : Interp) : Expr → M
   | .atom a => I.atom a
   | .tuple e es => bindML (consML (eval I e) (evalArgs I es)) I.tuple
-  | .block e => eval I e
+  | .block b => evalBlk I b
   | .post e p f => bindM (eval I e) (I.member p f)
   | .call0 f => bindM (eval I f) fun v => I.call v []
   | .call f args => bindM (eval I f) fun v => bindML (evalArgs I args) fun vs => I.call v vs
   | .unary .not e => bindM (eval I e) fun v => pureM (.bool (!toB v))
   | .unary .neg e => bindM (eval I e) fun v => pureM (.int (wrap32 (- toI v)))
   | .binary o l r => evalBin o (eval I l) (eval I r)
-  | .ifElse c t e => bindM (eval I c) fun v => if toB v then eval I t else eval I e
+  | .ifElse c t e => bindM (eval I c) fun v => if toB v then evalBlk I t else evalBlk I e
   | .matchE m cs => bindM (eval I m) fun v => I.matchSel v (evalCases I cs)
   | .lambda k b => I.lam k (eval I b)
 def evalArgs (I : Interp) : Args → ML
@@ -125,6 +127,14 @@ def evalArgs (I : Interp) : Args → ML
 def evalCases (I : Interp) : Cases → List (Nat × M)
   | .one k b => [(k, eval I b)]
   | .cons k b rest => (k, eval I b) :: evalCases I rest
+/-- a block: its statements in order, then the final expression (unit value if there is none). -/
+def evalBlk (I : Interp) : Blk → M
+  | .fin ss e => evalStmts I ss (eval I e)
+  | .noFin ss => evalStmts I ss (pureM (.other 0))
+def evalStmts (I : Interp) : Stmts → M → M
+  | .nil, k => k
+  | .letS n e rest, k => bindM (eval I e) fun v => bindM (I.letBind n v) fun _ => evalStmts I rest k
+  | .exprS e rest, k => bindM (eval I e) fun _ => evalStmts I rest k
 end
 
 end SamVerif.FmtFull
